@@ -2,10 +2,13 @@ pub mod c01;
 pub mod c02;
 pub mod c03;
 pub mod c06;
+pub mod c18;
 pub mod cc14;
 pub mod numeric;
 pub mod pn;
 pub mod twins;
+#[cfg(feature = "serde")]
+pub mod serde19;
 #[cfg(feature = "std")]
 pub mod polling;
 
@@ -34,6 +37,9 @@ pub fn run_prop(id: &str, cfg: &Cfg, rep: &mut Report) -> bool {
         "C15" => twins::run_c15(cfg, rep),
         "C16" => twins::run_c16(cfg, rep),
         "C17" => twins::run_c17(cfg, rep),
+        "C18" => c18::run(cfg, rep),
+        #[cfg(feature = "serde")]
+        "C19" => serde19::run(cfg, rep),
         _ => return false,
     }
     true
